@@ -3,7 +3,7 @@ import FluentVerif.Conc.Lockset
 in /verif/translator/main.go).  Locks: sessionLock 0, ackLock (the send mutex) 1, errLock 2,
 closeLock 3, listenLock 4, writeLock 5, stateLock 6.  Variables: session 0, transport phase 1,
 wire 2 (every use of the session's connection: writes, the ack read, deadline, close), err 3,
-connState 4, wswrite 5 (`Conn.WriteMessage`). -/
+connState 4, wswrite 5 (the frame-writing methods of the underlying connection), wsread 6, listenGate 7. -/
 namespace FV.Protect
 open FV.Lk
 
@@ -25,7 +25,9 @@ def wsClientPolicy : List Policy := [rw 0 0, rw 3 2]
 it is accepted here and its exclusivity is the invariant `C16_one_reader` of the `Ws.Conn` model. -/
 def wsConnPolicy : List Policy :=
   [rw 4 6, { var := 5, readAlts := [[(5, .ex)]], writeAlts := [[(5, .ex)]] },
-   { var := 6, readAlts := [[]], writeAlts := [] }]
+   { var := 6, readAlts := [[]], writeAlts := [] },
+   -- the admission gate of `Listen` (test of the Listening bit and its setting): under `listenLock`
+   { var := 7, readAlts := [[(4, .ex)]], writeAlts := [[(4, .ex)]] }]
 
 theorem clientPolicy_ok : policyOK { code := [], annot := [], policy := clientPolicy } = true := by decide
 theorem wsClientPolicy_ok : policyOK { code := [], annot := [], policy := wsClientPolicy } = true := by decide
